@@ -6,6 +6,10 @@
  *
  ****************************************************************************/
  
+#ifdef ALDOR_VERIF
+#include <execinfo.h>
+#include <unistd.h>
+#endif
 #include "abcheck.h"
 #include "abnorm.h"
 #include "abuse.h"
@@ -1402,6 +1406,17 @@ compSignalHandler(int signo)
  	else if (signo == SIGDANGER)	sigerr = ALDOR_E_SigDanger;
 	else				sigerr = ALDOR_E_SigUnknown;
 
+#ifdef ALDOR_VERIF
+	if (signo == SIGSEGV || signo == SIGBUS || signo == SIGFPE ||
+	    signo == SIGILL || signo == SIGABRT) {
+		/* Verification hook: name the fault site for triage. */
+		void	*verifFrames[12];
+		int	verifN = backtrace(verifFrames, 12);
+		fflush(osStdout);
+		if (write(1, "VERIF-FAULT-SITE:\n", 18) < 0) { }
+		backtrace_symbols_fd(verifFrames, verifN, 1);
+	}
+#endif
         osDisplayMessage(comsgString(sigerr));
         comsgError(NULL, sigerr, signo);
 	fflush(dbOut);
